@@ -3,7 +3,9 @@ let () =
   let suite = Sys.argv.(1) in
   let run = match suite with
     | "C18" -> C18.run
-    | "STORE" -> Store.run
+    | "STORE" | "NET" | "READ" | "ATOM" -> Store.run
+    | "PAGE" -> Page.run
+    | "MAP" -> Mapsuite.run
     | s -> failwith ("unknown suite " ^ s) in
   try
     while true do
